@@ -253,7 +253,7 @@ func runShard(b *Build, mode string, base spec.DiskCfg, shard int, agg chan<- *s
 func confirmC09(b *Build, c *spec.DiskCase, kind string) (bool, string) {
 	dir := filepath.Join(b.Scratch, fmt.Sprintf("confirm-%d", atomic.AddInt64(&diskSeq, 1)))
 	defer os.RemoveAll(dir)
-	raw, stderr, err := b.runBatchWorker("noinstr", "confirm", c, dir, 5*time.Minute)
+	raw, stderr, err := b.runBatchWorker("noinstr", "confirm", c, dir, 60*time.Second)
 	var S uint64
 	if w, h, comps, ok := declaredGo(c); ok {
 		S = w * h * comps
@@ -264,7 +264,7 @@ func confirmC09(b *Build, c *spec.DiskCase, kind string) (bool, string) {
 			return true, "the un-instrumented child aborted with out-of-memory under RLIMIT_AS = budget + 3 GiB: " + firstLineWith(stderr, "out of memory")
 		}
 		if strings.Contains(err.Error(), "watchdog") {
-			return true, "the un-instrumented child did not finish within 300 s"
+			return true, "the un-instrumented single-threaded child did not finish within 60 s"
 		}
 		if strings.Contains(stderr, "stack overflow") || strings.Contains(stderr, "goroutine stack exceeds") {
 			return true, "the un-instrumented child died of stack exhaustion"
